@@ -45,6 +45,7 @@ MAP = [  # (substring of the commit subject, property)
  ("date with a time zone suffix and an impossible day or month", "C10"),
  ("SOAP multiref href pointing to no element escaped as KeyError", "C10"),
  ("SOAP multiref href to an enclosing element recursed", "C10"),
+ ("SOAP multiref href to an ancestor element still recursed", "C10"),
  ("HttpRpc array index with more digits than int() reads", "C10"),
  ("duration pattern accepted any character as the decimal point", "C10"),
  ("JSON request declaring an unknown charset escaped", "C10"),
